@@ -16,7 +16,16 @@
 (* never crashed).                                                         *)
 (*                                                                         *)
 (* Block tree (constant): G - A1(t1) - A2(t2) - A3,  G - B1(t1) - B2 -     *)
-(* B3(t3),  X = invalid child of A1.  t1 is shared by A1 and B1.  A block  *)
+(* B3(t3) - B4,  t1 is shared by A1 and B1.  Invalid blocks: X (child of   *)
+(* A1) and S2 (child of B1): wrong state root; R3 (child of B2): wrong     *)
+(* receipt root; U4 (child of B3): wrong gas used; T2 (child of B1) and V4 *)
+(* (child of B3): header.TxHash does not match the body -- T2 executes     *)
+(* fine and has the descendants T3, T4 (invalid only through T2).          *)
+(* Engine "ucon" (constant Ucon): the header dispatch of ucon's            *)
+(* verifyHeader (ErrUnknownAncestor; ErrExistCanonical for a header whose  *)
+(* height has another canonical block), hence insertSidechain,             *)
+(* verifyAllSideChainBlocks, the re-import of the longer side chain and    *)
+(* the ErrPrunedAncestor path.  A block  *)
 (* without transactions has its parent's state root (solo engine: no       *)
 (* rewards), so "state of b available" is "the set of transactions applied *)
 (* up to b is a stored root".                                              *)
@@ -31,35 +40,49 @@ CONSTANTS MaxOffers,   \* number of InsertChain calls in a behaviour
           MaxCrash,    \* 0 (generation), 1, 2
           Atomic,      \* TRUE: the proposed repair -- lookups, canonical hashes, stale-lookup deletions and head markers of a
                        \*       WriteBlockWithState (reorg included) go into ONE database batch
+          Ucon,        \* TRUE: engine with ucon's header dispatch (side-chain path reachable); FALSE: solo engine
           GenMode      \* "none" | "leaf"
 
 KnownF == JsonDeserialize("known_c11.json")
 
-Static == {"G", "A1", "A2", "A3", "B1", "B2", "B3", "X"}
+Static == {"G", "A1", "A2", "A3", "B1", "B2", "B3", "B4", "X", "S2", "R3", "U4", "T2", "T3", "T4", "V4"}
 AllBlocks == Static \cup {"F"}
-SPar == [b \in Static |-> CASE b = "A2" -> "A1" [] b = "A3" -> "A2" [] b = "B2" -> "B1" [] b = "B3" -> "B2" [] b = "X" -> "A1" [] OTHER -> "G"]
-SNum == [b \in Static |-> CASE b = "G" -> 0 [] b \in {"A1", "B1"} -> 1 [] b \in {"A2", "B2", "X"} -> 2 [] OTHER -> 3]
+SPar == [b \in Static |-> CASE b = "A2" -> "A1" [] b = "A3" -> "A2" [] b = "B2" -> "B1" [] b = "B3" -> "B2" [] b = "B4" -> "B3"
+                            [] b = "X" -> "A1" [] b = "S2" -> "B1" [] b = "R3" -> "B2" [] b = "U4" -> "B3"
+                            [] b = "T2" -> "B1" [] b = "T3" -> "T2" [] b = "T4" -> "T3" [] b = "V4" -> "B3" [] OTHER -> "G"]
+SNum == [b \in Static |-> CASE b = "G" -> 0 [] b \in {"A1", "B1"} -> 1 [] b \in {"A2", "B2", "X", "S2", "T2"} -> 2
+                            [] b \in {"A3", "B3", "R3", "T3"} -> 3 [] OTHER -> 4]
 Txs(b) == CASE b = "A1" -> {"t1"} [] b = "A2" -> {"t2"} [] b = "B1" -> {"t1"} [] b = "B3" -> {"t3"} [] OTHER -> {}
 AllTx == {"t1", "t2", "t3"}
-Invalid == {"X"}
-MaxN == 4
-Segs == { <<"A1">>, <<"A2">>, <<"A3">>, <<"A1", "A2">>, <<"A2", "A3">>, <<"A1", "A2", "A3">>,
-          <<"B1">>, <<"B2">>, <<"B3">>, <<"B1", "B2">>, <<"B2", "B3">>, <<"B1", "B2", "B3">>,
-          <<"X">>, <<"A1", "X">> }
+\* what is wrong with a block (its own defect)
+Kind(b) == CASE b \in {"X", "S2"} -> "stateroot" [] b = "R3" -> "receipt" [] b = "U4" -> "gas" [] b \in {"T2", "V4"} -> "txroot" [] OTHER -> "ok"
+ExecBad(b) == Kind(b) \in {"stateroot", "receipt", "gas"}     \* rejected by Process + ValidateState
+BodyBad(b) == Kind(b) = "txroot"                                \* rejected by ValidateBody only
+Invalid == {"X", "S2", "R3", "U4", "T2", "T3", "T4", "V4"}      \* invalid blocks and their descendants
+MaxN == 5
+SegsSolo == { <<"A1">>, <<"A2">>, <<"A3">>, <<"A1", "A2">>, <<"A2", "A3">>, <<"A1", "A2", "A3">>,
+              <<"B1">>, <<"B2">>, <<"B3">>, <<"B1", "B2">>, <<"B2", "B3">>, <<"B1", "B2", "B3">>,
+              <<"X">>, <<"A1", "X">> }
+SegsUcon == { <<"A1">>, <<"A1", "A2">>, <<"A1", "A2", "A3">>, <<"A2", "A3">>, <<"A3">>,
+              <<"B1">>, <<"B1", "B2">>, <<"B1", "B2", "B3", "B4">>, <<"B2", "B3", "B4">>, <<"B3", "B4">>,
+              <<"B1", "T2", "T3", "T4">>, <<"T2", "T3", "T4">>, <<"B1", "B2", "B3", "V4">>, <<"B3", "V4">>,
+              <<"B1", "S2">>, <<"B1", "B2", "R3">>, <<"B1", "B2", "B3", "U4">>, <<"A1", "X">>, <<"X">> }
+Segs == IF Ucon THEN SegsUcon ELSE SegsSolo
 
-VARIABLES S,        \* [blk, roots, canon, headB, headH, txl, cur]: database keys + the in-memory head
-          todo,     \* remaining database writes of the block being written
-          pend,     \* remaining blocks of the running InsertChain call
+VARIABLES S,        \* [bod, blk, roots, canon, headB, headH, txl, cur]: database keys + the in-memory head; bod = blocks whose body
+                    \* is stored (BlockChain.HasBlock looks at the body only), blk = blocks whose header is stored too (GetBlock)
+          todo,     \* remaining database writes of the running InsertChain call
           seg,      \* the segment of the running / interrupted call
-          phase,    \* "normal" | "crashed" | "restarted" | "recovering" | "further" | "done"
-          mode,     \* "none" | "extend" | "reorg": how the first written block of the call relates to the head
+          phase,    \* "normal" | "crashed" | "restarted" | "recovering" | "further" | "done" | "dead" (the process panicked)
+          mode,     \* "none" | "extend" | "reorg": how the first block written by the call relates to the head
           wrote,    \* database writes done in the current call
           lastop,   \* kind of the last write
           crashes,
           fp,       \* parent of the further block F
           refHead,  \* head of the run that never crashed, after the interrupted call
+          pruned,   \* solo engine: the ErrPrunedAncestor dispatch was reached (assumed unreachable, see NoPrunedDispatch)
           hist      \* the offered segments (generation)
-vars == <<S, todo, pend, seg, phase, mode, wrote, lastop, crashes, fp, refHead, hist>>
+vars == <<S, todo, seg, phase, mode, wrote, lastop, crashes, fp, refHead, pruned, hist>>
 
 \* ---------------------------------------------------------------- the tree with the dynamic block F
 Par(b, f) == IF b = "F" THEN f ELSE SPar[b]
@@ -67,7 +90,7 @@ NumOf(b, f) == IF b = "F" THEN SNum[f] + 1 ELSE SNum[b]
 RECURSIVE Anc(_, _)     \* ancestors of b including b, excluding G, oldest first
 Anc(b, f) == IF b = "G" THEN <<>> ELSE Append(Anc(Par(b, f), f), b)
 AncSet(b, f) == { Anc(b, f)[i] : i \in DOMAIN Anc(b, f) } \cup {"G"}
-RootOf(b, f) == IF b \in Invalid THEN {"bad"} ELSE UNION { Txs(x) : x \in AncSet(b, f) }
+RootOf(b, f) == IF ExecBad(b) THEN {"bad"} ELSE UNION { Txs(x) : x \in AncSet(b, f) }
 HasState(s, b, f) == RootOf(b, f) \in s.roots
 Tree(f) == [par |-> [b \in AllBlocks |-> Par(b, f)], num |-> [b \in AllBlocks |-> NumOf(b, f)], inv |-> Invalid]
 
@@ -79,6 +102,8 @@ SetSeq(T) == LET RECURSIVE F(_) F(U) == IF U = {} THEN <<>> ELSE LET x == CHOOSE
 InsertOps(x) == << [op |-> "headH", b |-> x], [op |-> "canon", b |-> x], [op |-> "headB", b |-> x] >>
 \* rawdb.WriteTxLookupEntries directly on the database: one Put per transaction
 TxlOps(x) == [k \in 1..Cardinality(Txs(x)) |-> [op |-> "txl", b |-> x, t |-> SetSeq(Txs(x))[k]]]
+\* rawdb.WriteBlock: body, hash->number, header
+StoreOps(b) == << [op |-> "body", b |-> b], [op |-> "hnum", b |-> b], [op |-> "hdr", b |-> b] >>
 
 \* WriteBlockWithState(b) with the current head s.cur
 Plan(s, b, f) ==
@@ -92,13 +117,14 @@ Plan(s, b, f) ==
                         \o (IF diff = {} THEN <<>> ELSE << [op |-> "deltx", b |-> b, txs |-> diff] >>)
        index == reorg \o (IF Txs(b) = {} THEN <<>> ELSE << [op |-> "batch", b |-> b] >>)        \* receipts + lookups, one batch
                       \o InsertOps(b)
-   IN << [op |-> "body", b |-> b], [op |-> "hnum", b |-> b], [op |-> "hdr", b |-> b] >>      \* rawdb.WriteBlock
+   IN StoreOps(b)                                                                               \* rawdb.WriteBlock
       \o (IF HasState(s, b, f) THEN <<>> ELSE << [op |-> "st", b |-> b] >>)                     \* trie commits (nothing new: no write)
       \o (IF Atomic THEN << [op |-> "atomic", b |-> b, ops |-> index] >> ELSE index)
 
 RECURSIVE ApplyOp(_, _, _), RunOps(_, _, _)
 ApplyOp(s, o, f) ==
    CASE o.op = "atomic" -> RunOps(s, o.ops, f)
+     [] o.op = "body"  -> [s EXCEPT !.bod = @ \cup {o.b}]
      [] o.op = "hdr"   -> [s EXCEPT !.blk = @ \cup {o.b}]
      [] o.op = "st"    -> [s EXCEPT !.roots = @ \cup {RootOf(o.b, f)}]
      [] o.op = "headH" -> [s EXCEPT !.headH = o.b]
@@ -107,85 +133,135 @@ ApplyOp(s, o, f) ==
      [] o.op = "txl"   -> [s EXCEPT !.txl[o.t] = o.b]
      [] o.op = "batch" -> [s EXCEPT !.txl = [t \in AllTx |-> IF t \in Txs(o.b) THEN o.b ELSE @[t]]]
      [] o.op = "deltx" -> [s EXCEPT !.txl = [t \in AllTx |-> IF t \in o.txs THEN "-" ELSE @[t]]]
-     [] OTHER -> s      \* body, hnum: the block is not visible before its header is stored
-
-\* insertChain's dispatch for one block (ValidateBody, Process + ValidateState)
-Dispatch(s, b, f) ==
-   IF b \in s.blk /\ HasState(s, b, f) /\ s.canon[NumOf(b, f)] = b THEN "skip"       \* ErrKnownBlock
-   ELSE IF Par(b, f) \notin s.blk THEN "stop"                                          \* ErrUnknownAncestor
-   ELSE IF ~HasState(s, Par(b, f), f) THEN "pruned"                                    \* ErrPrunedAncestor => insertSidechain
-   ELSE IF b \in Invalid THEN "stop"                                                   \* ValidateState fails, nothing written
-   ELSE "write"
-
+     [] OTHER -> s      \* hnum, panic: the block is not visible before its header is stored
 RunOps(s, ops, f) == IF ops = <<>> THEN s ELSE RunOps(ApplyOp(s, Head(ops), f), Tail(ops), f)
-RECURSIVE RunSeg(_, _, _)
-RunSeg(s, bs, f) ==
-   IF bs = <<>> THEN s
-   ELSE LET d == Dispatch(s, Head(bs), f) IN
-        IF d = "skip" THEN RunSeg(s, Tail(bs), f)
-        ELSE IF d = "write" THEN RunSeg(RunOps(s, Plan(s, Head(bs), f), f), Tail(bs), f)
-        ELSE s
+
+\* ValidateBody: ErrKnownBlock
+Known(s, b, f) == b \in s.blk /\ HasState(s, b, f) /\ s.canon[NumOf(b, f)] = b
+\* ucon's verifyCascadingFields: another block is canonical at the header's height
+Exist(s, b, f) == s.canon[NumOf(b, f)] \notin {"-", b}
+
+\* insertSidechain, ancestor collection: back from the tip to the first canonical block with state (included)
+StopAt(s, p, f) == p = "G" \/ (s.canon[NumOf(p, f)] = p /\ HasState(s, p, f))
+RECURSIVE Collect(_, _, _), CollectOk(_, _, _)
+Collect(s, p, f) == IF StopAt(s, p, f) THEN <<p>> ELSE Append(Collect(s, Par(p, f), f), p)
+\* the walk reads every header with GetHeader and dereferences the result unchecked: a block without header = nil pointer
+CollectOk(s, p, f) == p \in s.blk /\ (StopAt(s, p, f) \/ CollectOk(s, Par(p, f), f))
+\* ValidateBody: the parent is there with its state; otherwise HasBlock (body only) decides between pruned and unknown ancestor
+ParentOk(s, b, f) == Par(b, f) \in s.blk /\ HasState(s, Par(b, f), f)
+RECURSIVE Strip(_, _, _)
+Strip(s, c, f) == IF c # <<>> /\ s.canon[NumOf(Head(c), f)] = Head(c) THEN Strip(s, Tail(c), f) ELSE c
+
+\* every database write of one InsertChain(bs) call, in the code's order.  first: bs[1] is index 0 of the running insertChain
+\* invocation; ucon: engine; d bounds the nesting insertChain -> insertSidechain -> insertChain
+RECURSIVE CallOps(_, _, _, _, _, _), SideOps(_, _, _, _, _)
+CallOps(s, bs, first, f, ucon, d) ==
+   IF bs = <<>> THEN <<>>
+   ELSE LET b == Head(bs)
+            write == LET p == Plan(s, b, f) IN p \o CallOps(RunOps(s, p, f), Tail(bs), FALSE, f, ucon, d)
+        IN
+        IF ~ucon
+        THEN IF Known(s, b, f) THEN CallOps(s, Tail(bs), FALSE, f, ucon, d)                  \* ErrKnownBlock: next block
+             ELSE IF ~ParentOk(s, b, f) THEN <<>>               \* ErrUnknownAncestor / ErrPrunedAncestor (see NoPrunedDispatch)
+             ELSE IF BodyBad(b) \/ ExecBad(b) THEN <<>>                                        \* nothing written
+             ELSE write
+        ELSE IF first /\ Par(b, f) \notin s.blk THEN <<>>                                     \* engine: ErrUnknownAncestor
+             ELSE IF Exist(s, b, f)
+                  THEN IF first THEN SideOps(s, bs, f, ucon, d)                               \* ErrExistCanonical, i = 0
+                       \* ErrExistCanonical, i > 0: VerifySeal, ValidateBody, then the block is processed and written
+                       ELSE IF ~ParentOk(s, b, f) \/ BodyBad(b) \/ ExecBad(b) THEN <<>>
+                       ELSE write
+             ELSE IF Known(s, b, f) THEN CallOps(s, Tail(bs), FALSE, f, ucon, d)
+             ELSE IF ~ParentOk(s, b, f)
+                  THEN IF Par(b, f) \in s.bod THEN SideOps(s, bs, f, ucon, d)                  \* ErrPrunedAncestor
+                       ELSE <<>>                                                               \* ErrUnknownAncestor
+             ELSE IF BodyBad(b) \/ ExecBad(b) THEN <<>>
+             ELSE write
+\* insertSidechain(chain): verifyAllSideChainBlocks (executes every block, does NOT compare header.TxHash with the body), store
+\* the blocks without state, and if the side chain is longer than the canonical one re-import it from the common ancestor
+SideOps(s, chain, f, ucon, d) ==
+   LET c == Strip(s, chain, f) IN
+   IF c = <<>> THEN <<>>
+   ELSE IF Par(c[1], f) \notin s.blk \/ ~HasState(s, Par(c[1], f), f) THEN <<>>
+   ELSE IF \E i \in DOMAIN c : ExecBad(c[i]) THEN <<>>
+   ELSE LET store == Flat([i \in DOMAIN c |-> IF c[i] \in s.bod THEN <<>> ELSE StoreOps(c[i])])     \* if !bc.HasBlock(...)
+            s2 == RunOps(s, store, f)
+            tip == c[Len(c)]
+        IN IF NumOf(tip, f) <= NumOf(s2.cur, f) \/ d = 0 THEN store
+           ELSE IF ~CollectOk(s2, tip, f) THEN Append(store, [op |-> "panic", b |-> tip])
+           ELSE store \o CallOps(s2, Collect(s2, tip, f), TRUE, f, ucon, d - 1)
+
+\* solo engine: is the ErrPrunedAncestor dispatch reached by this call?
+RECURSIVE PrunedIn(_, _, _)
+PrunedIn(s, bs, f) ==
+   IF bs = <<>> THEN FALSE
+   ELSE LET b == Head(bs) IN
+        IF Known(s, b, f) THEN PrunedIn(s, Tail(bs), f)
+        ELSE IF ~ParentOk(s, b, f) THEN Par(b, f) \in s.bod
+        ELSE IF BodyBad(b) \/ ExecBad(b) THEN FALSE
+        ELSE PrunedIn(RunOps(s, Plan(s, b, f), f), Tail(bs), f)
+
+\* how the first block written by the call relates to the head before the call
+ModeOfOps(s, ops, f) == LET q == SelectSeq(ops, LAMBDA o : o.op = "body") IN
+                        IF q = <<>> THEN "none" ELSE IF Par(q[1].b, f) = s.cur THEN "extend" ELSE "reorg"
 
 \* loadLastState + repair
 RECURSIVE Repair(_, _, _)
 Repair(s, b, f) == IF HasState(s, b, f) \/ b = "G" THEN b ELSE Repair(s, Par(b, f), f)
 
 \* ---------------------------------------------------------------- the machine
-S0 == [blk |-> {"G"}, roots |-> {{}}, canon |-> [n \in 0..MaxN |-> IF n = 0 THEN "G" ELSE "-"],
+S0 == [bod |-> {"G"}, blk |-> {"G"}, roots |-> {{}}, canon |-> [n \in 0..MaxN |-> IF n = 0 THEN "G" ELSE "-"],
        headB |-> "G", headH |-> "G", txl |-> [t \in AllTx |-> "-"], cur |-> "G"]
 
-Init == /\ S = S0 /\ todo = <<>> /\ pend = <<>> /\ seg = <<>> /\ phase = "normal" /\ mode = "none" /\ wrote = 0
-        /\ lastop = "-" /\ crashes = 0 /\ fp = "G" /\ refHead = "G" /\ hist = <<>>
+Init == /\ S = S0 /\ todo = <<>> /\ seg = <<>> /\ phase = "normal" /\ mode = "none" /\ wrote = 0
+        /\ lastop = "-" /\ crashes = 0 /\ fp = "G" /\ refHead = "G" /\ pruned = FALSE /\ hist = <<>>
 
-Idle == todo = <<>> /\ pend = <<>>
+Idle == todo = <<>>
+Call(sg, f) == CallOps(S, sg, TRUE, f, Ucon, 3)
 
 Offer(sg) == /\ phase = "normal" /\ Idle /\ Len(hist) < MaxOffers
-             /\ pend' = sg /\ seg' = sg /\ mode' = "none" /\ wrote' = 0 /\ lastop' = "-"
+             /\ todo' = Call(sg, fp) /\ seg' = sg /\ mode' = ModeOfOps(S, Call(sg, fp), fp) /\ wrote' = 0 /\ lastop' = "-"
+             /\ pruned' = (pruned \/ (~Ucon /\ PrunedIn(S, sg, fp)))
              /\ hist' = Append(hist, sg)
-             /\ UNCHANGED <<S, todo, phase, crashes, fp, refHead>>
-
-Next1 == \* dispatch of the next block of the running call
-   /\ phase \in {"normal", "recovering", "further"} /\ todo = <<>> /\ pend # <<>>
-   /\ LET b == Head(pend)  d == Dispatch(S, b, fp) IN
-      /\ pend' = IF d \in {"skip", "write"} THEN Tail(pend) ELSE <<>>
-      /\ todo' = IF d = "write" THEN Plan(S, b, fp) ELSE <<>>
-      /\ mode' = IF d = "write" /\ mode = "none" THEN (IF Par(b, fp) = S.cur THEN "extend" ELSE "reorg") ELSE mode
-   /\ UNCHANGED <<S, seg, phase, wrote, lastop, crashes, fp, refHead, hist>>
+             /\ UNCHANGED <<S, phase, crashes, fp, refHead>>
 
 Write == \* one database write
    /\ phase \in {"normal", "recovering", "further"} /\ todo # <<>>
    /\ S' = ApplyOp(S, Head(todo), fp)
    /\ todo' = Tail(todo) /\ wrote' = wrote + 1 /\ lastop' = Head(todo).op
-   /\ UNCHANGED <<pend, seg, phase, mode, crashes, fp, refHead, hist>>
+   /\ phase' = IF Head(todo).op = "panic" THEN "dead" ELSE phase       \* nil pointer dereference in insertSidechain
+   /\ UNCHANGED <<seg, mode, crashes, fp, refHead, pruned, hist>>
 
 Crash == \* the process dies after a write of the running call
    /\ phase \in (IF MaxCrash > 1 THEN {"normal", "recovering"} ELSE {"normal"})
    /\ crashes < MaxCrash /\ wrote > 0 /\ seg # <<>>
-   /\ refHead' = IF phase = "normal" THEN RunSeg(RunOps(S, todo, fp), pend, fp).cur ELSE refHead
+   /\ refHead' = IF phase = "normal" THEN RunOps(S, todo, fp).cur ELSE refHead
    /\ S' = [S EXCEPT !.cur = "-"]
-   /\ todo' = <<>> /\ pend' = <<>> /\ phase' = "crashed" /\ crashes' = crashes + 1
-   /\ UNCHANGED <<seg, mode, wrote, lastop, fp, hist>>
+   /\ todo' = <<>> /\ phase' = "crashed" /\ crashes' = crashes + 1
+   /\ UNCHANGED <<seg, mode, wrote, lastop, fp, pruned, hist>>
 
 Restart == \* NewBlockChain on the same database: loadLastState (+ repair); SetCurrentHeader writes the head header hash
    /\ phase = "crashed"
    /\ LET h == Repair(S, S.headB, fp) IN S' = [S EXCEPT !.cur = h, !.headH = h]
    /\ phase' = "restarted"
-   /\ UNCHANGED <<todo, pend, seg, mode, wrote, lastop, crashes, fp, refHead, hist>>
+   /\ UNCHANGED <<todo, seg, mode, wrote, lastop, crashes, fp, refHead, pruned, hist>>
 
 ReOffer == \* "the interrupted blocks ... are imported again"
    /\ phase = "restarted"
-   /\ pend' = seg /\ phase' = "recovering" /\ wrote' = 0
-   /\ UNCHANGED <<S, todo, seg, mode, lastop, crashes, fp, refHead, hist>>
+   /\ todo' = Call(seg, fp) /\ phase' = "recovering" /\ wrote' = 0
+   /\ pruned' = (pruned \/ (~Ucon /\ PrunedIn(S, seg, fp)))
+   /\ UNCHANGED <<S, seg, mode, lastop, crashes, fp, refHead, hist>>
 
 Further == \* "... and any one further valid block": a child of the head of the run that never crashed
    /\ phase = "recovering" /\ Idle
-   /\ fp' = refHead /\ pend' = <<"F">> /\ phase' = "further"
-   /\ UNCHANGED <<S, todo, seg, mode, wrote, lastop, crashes, refHead, hist>>
+   /\ fp' = refHead /\ todo' = Call(<<"F">>, refHead) /\ phase' = "further"
+   /\ pruned' = (pruned \/ (~Ucon /\ PrunedIn(S, <<"F">>, refHead)))
+   /\ UNCHANGED <<S, seg, mode, wrote, lastop, crashes, refHead, hist>>
 
 Finish == /\ phase = "further" /\ Idle /\ phase' = "done"
-          /\ UNCHANGED <<S, todo, pend, seg, mode, wrote, lastop, crashes, fp, refHead, hist>>
+          /\ UNCHANGED <<S, todo, seg, mode, wrote, lastop, crashes, fp, refHead, pruned, hist>>
 
-Next == (\E sg \in Segs : Offer(sg)) \/ Next1 \/ Write \/ Crash \/ Restart \/ ReOffer \/ Further \/ Finish
+Next == (\E sg \in Segs : Offer(sg)) \/ Write \/ Crash \/ Restart \/ ReOffer \/ Further \/ Finish
 Spec == Init /\ [][Next]_vars
 
 \* ---------------------------------------------------------------- property layer
@@ -200,11 +276,16 @@ Cex(name) == PrintT("@@J " \o ToJson([kind |-> "CEX", clause |-> name, disc |-> 
 \* the four consistency clauses, whenever the chain is at rest (after a call, after a restart, after the recovery)
 Consistent == AtRest => \A name \in Failing(Tree(fp), Obs) : IsKnown(KnownF, name, Disc(name)) \/ Cex(name)
 \* "it has the same head and state as a node that never crashed" (whose head is F)
-NotWedged == phase = "done" => ((S.cur = "F" /\ HasState(S, "F", fp)) \/ IsKnown(KnownF, "NotWedged", Disc("NotWedged")) \/ Cex("NotWedged"))
+WedgedDisc == {IF phase = "dead" THEN "panic_in_recovery" ELSE IF S.cur # "F" THEN "different_head" ELSE "state_unavailable",
+               "recovered", mode}
+NotWedged == phase \in {"done", "dead"} =>
+                \/ (phase = "done" /\ S.cur = "F" /\ HasState(S, "F", fp))
+                \/ IsKnown(KnownF, "NotWedged", WedgedDisc)
+                \/ (PrintT("@@J " \o ToJson([kind |-> "CEX", clause |-> "NotWedged", disc |-> WedgedDisc, h |-> hist])) /\ FALSE)
 \* the solo engine never takes the side-chain path in this tree, crashes included
-NoPrunedDispatch == (todo = <<>> /\ pend # <<>>) => Dispatch(S, Head(pend), fp) # "pruned"
+NoPrunedDispatch == ~pruned
 
 \* ---------------------------------------------------------------- generation
 Leaf == (GenMode = "leaf" /\ Len(hist) = MaxOffers /\ Idle /\ phase = "normal") => PrintT("@@J " \o ToJson([kind |-> "B", h |-> hist]))
-View == <<S, todo, pend, seg, phase, mode, wrote, lastop, crashes, fp, refHead, Len(hist)>>
+View == <<S, todo, seg, phase, mode, wrote, lastop, crashes, fp, refHead, pruned, Len(hist)>>
 =============================================================================
